@@ -240,3 +240,18 @@ def visits_every_item(ctx, b, body, call):
             return False, "the adaptor chain is never consumed"
         return True, "once per item (%s)" % " -> ".join(chain)
     return False, "closure not found"
+
+
+def upvar_operand(ctx, b, cl, place):
+    """a place of closure body `cl` rooted in a captured variable `(*_1).k` -> the operand of the closure aggregate in `b` that fills
+    capture k (or None)"""
+    if place is None or place[0] != 1:
+        return None
+    fs = [x for x in place[1] if isinstance(x, list) and x[0] == "f"]
+    if not fs:
+        return None
+    k = fs[0][1]
+    for i, j, s in b.all_stmts():
+        if s[0] == "=" and s[2][0] == "agg" and s[2][1].get("k") == "closure" and norm(s[2][1]["def"]) == norm(cl.id) and k < len(s[2][2]):
+            return s[2][2][k]
+    return None
